@@ -688,30 +688,10 @@ static void run_adversarial(vfh::Reporter &R) {
   }
 }
 
-// development aid: scan for instances of family B that end in Success with a wrong result
-static void search_b(vfh::Reporter &R) {
-  for (long sd = 1; sd <= 300; ++sd) {
-    vfh::Rng rr(sd);
-    long n = 4 * rr.range(2, 20);
-    long ne = n / 4 - rr.range(0, 1);
-    vfh::Rng r0(4242 + sd);
-    Mat m = gen_symm(r0, n, 0);
-    for (int cc = 0; cc < 24; ++cc) {
-      Cfg c;
-      c.corr = CORR[cc % 2]; c.upd = UPD[(cc / 2) % 3]; c.tol = TOL[(cc / 6) % 4]; c.tolv = tol_value(c.tol); c.neigen = ne;
-      Outcome o = solve(m.M, c);
-      long before = R.violations;
-      bool js = judge(R, m, c, o, "search", "x");
-      if (js && R.violations != before) std::cerr << "FOUND seed " << sd << " n " << n << " ne " << ne << " " << cjson(c) << "\n";
-    }
-  }
-}
-
 int main(int argc, char **argv) {
   vfh::Args A(argc, argv);
   vfh::Reporter R;
   R.max_samples = 3;
-  if (A.str("mode") == "searchb") { R.max_per_key = 0; search_b(R); return 0; }
   std::string mode = A.str("mode", "random");
   if (mode == "adversarial") run_adversarial(R);
   else run_random(R, A.num("seed", 1), A.num("shard", 0), A.num("n", 20), A.str("sizes", "small") == "large", A.has("only") ? A.num("only", 0) : -1);
